@@ -1522,3 +1522,47 @@ def rule_scan_leaves_lastindex_zero(ctx, rep, rid: str) -> None:
                 rep.bad(rid, key, f"{m.qual} returns (line {r.lineno}) from its scan over all matches without lastIndex having been set to 0 on that path: after `re.test(s); s.replace(re, x)` with a global regex, lastIndex keeps the value the earlier test left (the scan no longer goes through the facade's exec, whose failure reset it), so the next `re.test(s)` starts in the middle of the subject", f"{m.module.rel}:{r.lineno}")
     if n == 0:
         rep.ok(rid, "no-scan-method", {"note": "the facade has no method that collects all matches; the string natives loop over exec themselves"})
+
+
+def rule_fresh_captures_per_attempt(ctx, rep, rid: str) -> None:
+    """The matcher records captures by writing into the lists it was given; backtracking swaps snapshots in but does not
+    undo writes to the list object the run STARTED with.  A loop that tries the matcher at one position after another
+    (the start positions of a lookbehind) therefore hands every attempt its own copy: a copy made once before the loop
+    carries what a failed attempt wrote into the next one, and a group that did not take part in the match reports
+    text."""
+    rep.rule(rid, "inside a loop that runs the matcher once per candidate position, the capture lists passed to the run are copied inside the loop (an inline copy expression, or a local assigned in the loop body), never a parameter or a local prepared before the loop", floor=1)
+    n = 0
+    for f, _loop in ctx.facts.matcher_loops():
+        cls = f.cls
+        if cls is None:
+            continue
+        # does this matcher write into the lists it was given (captures[g][k] = ..)?  A copy-on-write matcher replaces
+        # the outer list before it stores, and may share it freely
+        in_place = any(isinstance(a, ast.Assign) and any(isinstance(t, ast.Subscript) and isinstance(t.value, ast.Subscript) and norm(t.value.value) == "captures" for t in a.targets) for a in f.own_nodes())
+        if not in_place:
+            continue
+        for m in cls.all_methods:
+            if isinstance(m.node, ast.Lambda) or m is f:
+                continue
+            for loop in m.own_nodes():
+                if not isinstance(loop, (ast.For, ast.While)):
+                    continue
+                for c in ast.walk(loop):
+                    if not (isinstance(c, ast.Call) and isinstance(c.func, ast.Attribute) and norm(c.func.value) == "self" and c.func.attr == f.name):
+                        continue
+                    ps = [p for p in f.params() if p != "self"]
+                    if "captures" not in ps:
+                        continue
+                    i = ps.index("captures")
+                    arg = c.args[i] if i < len(c.args) else next((k.value for k in c.keywords if k.arg == "captures"), None)
+                    if arg is None:
+                        continue
+                    n += 1
+                    key = f"{m.qual}:{f.name}(captures={short(arg, 30)})"
+                    fresh = isinstance(arg, (ast.ListComp, ast.Call)) or (isinstance(arg, ast.Name) and any(isinstance(a, ast.Assign) and any(isinstance(t, ast.Name) and t.id == arg.id for t in a.targets) for b in loop.body for a in ast.walk(b)))
+                    if fresh:
+                        rep.ok(rid, key)
+                    else:
+                        rep.bad(rid, key, f"{m.qual} runs the matcher once per candidate position and gives every run the same capture lists `{norm(arg)}`, prepared before the loop: what a failed attempt recorded is still there when the next position is tried, so a group that takes no part in the match reports text (/(?<=(c)x|b)c/ on \"bc\" captures \"c\")", f"{m.module.rel}:{c.lineno}")
+    if n == 0:
+        rep.ok(rid, "no-position-loop", {"note": "no loop runs the matcher once per candidate position"})
